@@ -606,5 +606,6 @@ def finalize(agg, tier):
 TECHNIQUE = 'lock-step differential execution of the real Python and C simulators with a recording tracer (plus ASan/UBSan build), and trace.py with/without --python'
 LEVEL_TEXT = ('Python and C members of each simulator pair are stepped in lock step on generated programs (48K and 128K with paging, with and without tracer) and '
               'compared after every instruction: 30 registers, stores, port events, full memory images periodically, accept_interrupt results; run(start, stop, interrupts) '
-              'end states and trace.py -vv logs/snapshots with and without --python must be identical. A slice of the workload also runs under clang ASan+UBSan.')
+              'end states and trace.py -vv logs/snapshots with and without --python must be identical, also in trace.py\'s fast mode (no -v/-m/-M), whose Python shortcuts (fast_ldir/fast_djnz) are '
+              'additionally compared, one run() against the iterated instruction on the ordinary Python and C simulators. A slice of the workload also runs under clang ASan+UBSan.')
 LEVEL_NOTE = 'Bounded program length (300 steps; run-to-stop up to 3000 instructions); sampled programs; the C extension is rebuilt from the working tree by the harness.'
